@@ -7,6 +7,11 @@ import (
 	"sync"
 
 	"github.com/invopop/gobl"
+	"github.com/invopop/gobl/bill"
+	"github.com/invopop/gobl/cbc"
+	"github.com/invopop/gobl/note"
+	"github.com/invopop/gobl/num"
+	"github.com/invopop/gobl/org"
 )
 
 // C08 — the header digest makes every change to the stored document evident.
@@ -690,3 +695,134 @@ func c08where(b []byte, err error) string {
 }
 
 var _ = sort.Strings
+
+// ---------------------------------------------------------------------------
+// check "inmemory": the same clause for a change made to the live object after a restore
+// (through the typed API, no serialisation involved): without recalculating, validation
+// must fail; after recalculating the digest differs.
+
+func init() {
+	pd := props["C08"]
+	pd.Checks = append(pd.Checks, &CheckDef{
+		Name:    "inmemory",
+		NumRuns: func(c *Ctx) int64 { return int64(len(c.Corpus.Valid)) },
+		Plan: func(c *Ctx, run int64) *Plan {
+			d := c.Corpus.Valid[run]
+			return &Plan{Prop: "C08", Check: "inmemory", Seed: c.Seed, Run: run, Str: map[string]string{"doc": d.Name},
+				Ops: []Op{{ID: 1, K: "live", S: "quantity"}, {ID: 2, K: "live", S: "name"}, {ID: 3, K: "live", S: "note"}, {ID: 4, K: "live", S: "meta"}}}
+		},
+		Exec:       execC08live,
+		Exhaustive: func(c *Ctx) bool { return true },
+	})
+	pd.RequiredProbes = append(pd.RequiredProbes, "in-memory-edit-detected")
+}
+
+// liveEditAny changes one business value of a restored envelope in memory.
+func liveEditAny(env *gobl.Envelope, what string) bool {
+	switch doc := env.Extract().(type) {
+	case *bill.Invoice:
+		return liveBill(&doc.Lines, &doc.Supplier, &doc.Notes, &doc.Meta, what)
+	case *bill.Order:
+		return liveBill(&doc.Lines, &doc.Supplier, &doc.Notes, &doc.Meta, what)
+	case *bill.Delivery:
+		return liveBill(&doc.Lines, &doc.Supplier, &doc.Notes, &doc.Meta, what)
+	case *bill.Payment:
+		switch what {
+		case "name":
+			if doc.Supplier != nil {
+				doc.Supplier.Name += " (edited)"
+				return true
+			}
+		case "meta":
+			doc.Meta = cbc.Meta{"edited": "yes"}
+			return true
+		case "quantity":
+			if len(doc.Lines) > 0 && doc.Lines[0].Debit != nil {
+				a := doc.Lines[0].Debit.Add(num.MakeAmount(1, 0))
+				doc.Lines[0].Debit = &a
+				return true
+			}
+		}
+	case *org.Party:
+		if what == "name" {
+			doc.Name += " (edited)"
+			return true
+		}
+	case *note.Message:
+		if what == "note" {
+			doc.Content += " (edited)"
+			return true
+		}
+	}
+	return false
+}
+
+func liveBill(lines *[]*bill.Line, supplier **org.Party, notes *[]*org.Note, meta *cbc.Meta, what string) bool {
+	switch what {
+	case "quantity":
+		if len(*lines) > 0 && (*lines)[0] != nil {
+			(*lines)[0].Quantity = (*lines)[0].Quantity.Add(num.MakeAmount(1, 0))
+			return true
+		}
+	case "name":
+		if *supplier != nil {
+			(*supplier).Name += " (edited)"
+			return true
+		}
+	case "note":
+		*notes = append(*notes, &org.Note{Text: "edited in memory"})
+		return true
+	case "meta":
+		m := cbc.Meta{}
+		for k, v := range *meta {
+			m[k] = v
+		}
+		m["edited"] = "yes"
+		*meta = m
+		return true
+	}
+	return false
+}
+
+func execC08live(x *X) {
+	d := x.C.Corpus.Get(x.P.Str["doc"])
+	if d == nil {
+		x.R.Infra = "corpus document missing"
+		return
+	}
+	for i, op := range x.P.Ops {
+		for _, signed := range []bool{false, true} {
+			_, base, ok := c08base(x, d, signed)
+			if !ok {
+				continue
+			}
+			env, err := ParseEnv(base) // the restart: only durable bytes survive
+			if err != nil {
+				continue
+			}
+			if !liveEditAny(env, op.S) {
+				continue
+			}
+			x.Case(fmt.Sprintf("%s|%v|live|%s", d.Name, signed, op.S))
+			x.Fault("in-memory-edit")
+			var verr error
+			if p := safely(func() { verr = env.Validate() }); p != "" {
+				x.Probe("panic-on-edited-document")
+				continue
+			}
+			if verr == nil {
+				x.Violate("undetected:inmemory:"+op.S+"/"+d.Kind, "the %s of %s (signed=%v) was changed in memory after the envelope was restored from its stored bytes, nothing was recalculated, and the envelope still validates", op.S, d.Name, signed)
+				continue
+			}
+			x.Probe("in-memory-edit-detected")
+			old := env.Head.Digest.Value
+			sigs := env.Signatures
+			env.Signatures = nil
+			if err := env.Calculate(); err == nil && env.Head.Digest.Value == old {
+				x.Violate("same-digest:inmemory:"+op.S+"/"+d.Kind, "after changing the %s of %s in memory and recalculating, the digest is unchanged", op.S, d.Name)
+			}
+			env.Signatures = sigs
+		}
+		x.Step(i, "store", "live", op.S)
+	}
+}
